@@ -141,6 +141,18 @@ func c06Step(rig *tRig, m *c06Model, step string) {
 		vCheck((n1.ljh3-n0.ljh3 == 1) == (on && m.ljh3), "LJH3 record stored exactly when active, unpaused and the type is enabled")
 		vCheck((n1.off-n0.off == 1) == (on && m.off && c == 1), "OFF record stored exactly when active, unpaused, enabled and the channel has projectors")
 		vCheck(n1.ljh22-n0.ljh22 <= 1 && n1.ljh3-n0.ljh3 <= 1 && n1.off-n0.off <= 1, "a record is stored at most once per file")
+		// the periodic flush (also what PAUSE does): afterwards every file that has been given
+		// a record holds data on disk, whichever other file types are active
+		dsp.DataPublisher.Flush()
+		if dsp.LJH22 != nil && n1.ljh22 > 0 {
+			vCheck(vFsSize(dsp.LJH22.FileName) >= 24*n1.ljh22, "after a flush the LJH2.2 file holds the records stored so far")
+		}
+		if dsp.LJH3 != nil && n1.ljh3 > 0 {
+			vCheck(vFsSize(dsp.LJH3.FileName) >= 32*n1.ljh3, "after a flush the LJH3 file holds the records stored so far")
+		}
+		if dsp.OFF != nil && n1.off > 0 {
+			vCheck(vFsSize(fmt.Sprintf(ds.ComputeWritingState().FilenamePattern, dsp.Name, "off")) >= 40*n1.off, "after a flush the OFF file holds the records stored so far")
+		}
 	}
 	for {
 		select {
